@@ -871,6 +871,14 @@ def replay(ctx, case):
         for f in fr:
             res = call(im.get_frame, f + 1, **kw)
             check_call(sub, case, P, f, flags, opts, res, 'get_frame', hist=False)
+    streams = {'lut': stream_lut, 'palette': stream_palette, 'selwin': stream_selectors, 'sellut': stream_selectors,
+               'selrw': stream_selectors, 'place': stream_placement, 'obj': stream_objects, 'paths': stream_paths, 'dtype': stream_dtype}
+    fn = streams.get(case.get('stream'))
+    if fn is not None:
+        # these streams are cheap: re-run the stream and keep the failures of the same case
+        fn(sub, [], [])
+        keys = [k for k in ('stream', 'idx', 'n', 'sel', 'kind', 'places', 'frame', 'slope', 'intercept', 'out', 'in') if k in case]
+        sub.failures = [f for f in sub.failures if all(f['case'].get(k) == case.get(k) for k in keys)]
     return sub.failures[:3] or None
 
 
